@@ -130,6 +130,36 @@ theorem C19_unguarded_would_stamp (s : State) (e : Nat) (ent : Ent) (via : Optio
   cases via <;> simp only [Option.getD] at hres <;>
     rcases hk with hk | hk <;> simp only [step, hal, hres, hk, hc, ht, hv] <;> cases s.auto <;> simp
 
+/-! ## where the machinery is named at all
+
+`stampSites` lists every place of nixio/**/*.py (the test suite excluded) that names `created_at`,
+`updated_at`, `force_created_at`, `force_updated_at`, `now_int`, `time_to_str` or the switch, by file and
+scope.  All of them stand in methods of the classes the member table analyses (where the flow
+analysis and the creator / force / getter renderings account for each one), in util's own
+definitions and export list, in the format converter `nixio/cmd/upgrade.py` (which builds objects
+with h5py, outside the object model), or are plain reads of a getter (validator, explore tool).
+Nothing else: no module-level code or plain function of an entity module, nothing in the HDF5 layer
+`nixio/hdf5/**` - where a write would bypass every table above. -/
+
+def sitesOk : Bool :=
+  stampSites.all fun s => s.kind != .stray &&
+    (s.kind != .member || !(s.file.startsWith "hdf5/" || s.file.startsWith "util/" || s.file.startsWith "cmd/"))
+
+theorem C19_stamp_sites (s : StampSite) (hs : s ∈ stampSites) :
+    s.kind ≠ .stray ∧ (s.kind = .member → ¬ (s.file.startsWith "hdf5/" = true)) := by
+  have hall : sitesOk = true := by decide +kernel
+  have h := (List.all_eq_true.mp hall) s hs
+  simp only [Bool.and_eq_true, bne_iff_ne, ne_eq, Bool.or_eq_true, Bool.not_eq_true',
+    Bool.not_eq_eq_eq_not, Bool.not_true] at h
+  refine ⟨h.1, fun hm => ?_⟩
+  rcases h.2 with h2 | h2
+  · exact absurd hm h2
+  · intro hf; simp [hf] at h2
+
+example : (stampSites.filter fun s => s.kind == .tool).map (·.file) = ["cmd/upgrade.py", "cmd/upgrade.py"] ∧
+    (stampSites.filter fun s => s.kind == .definition).map (·.file) = ["util/util.py"] ∧
+    (stampSites.any fun s => s.kind == .member && s.scope == "DataFrame.units") = true := by decide +kernel
+
 /-! ## which members hand a change on to another object
 
 A call stamps its own object (`outcomes`), or it invokes a stamping member of ANOTHER object, which
